@@ -41,6 +41,7 @@ func runC19(c *Ctx) {
 	c19R9(c)
 	c19R10(c)
 	c19R11(c)
+	c19R12(c)
 }
 
 // c19R8: on the cache-hit path too, the digest that is checked and recorded is computed from the bytes.
@@ -1008,4 +1009,31 @@ func c19R11(c *Ctx) {
 		c.Dominated(r, kit.FuncKey(fn)+": installs only from a cryptographically verified index", asInstrs(calls), g, "the verified.Verified edge")
 	}
 	c.R.Check(n >= 1, r, "registry: downloadVerifyAndInstall call", "", "found", "no call of downloadVerifyAndInstall found", true)
+}
+
+// c19R12: F48. The tightness check of a publisher's identity pin (TrustedVerifier.VerifyArtifact refuses a loose pin
+// before looking at any signature) judged the pattern by scanning its bytes: "^<tight literal>|.*$" or an optional
+// slash behind the repository segment passed and an artifact signed by an unrelated identity was accepted. What can be
+// decided statically is only that the check judges the PARSED expression: ValidateIdentityPattern accepts (returns
+// nil) only behind the success edge of regexp/syntax.Parse (directly or through a helper). Whether the accepted set of
+// expressions is tight is a value-level question and not decided.
+func c19R12(c *Ctx) {
+	r := c.R.Rule("R12", "K3 the identity pin is judged on the parsed expression: trust.ValidateIdentityPattern returns nil only behind the success edge of regexp/syntax.Parse (possibly via a same-package helper)", 1)
+	fn := c.SSA(r, "pkg/registry/trust", "ValidateIdentityPattern")
+	parse, _ := c.W.ExtObj("regexp/syntax", "Parse").(*types.Func)
+	if fn == nil {
+		return
+	}
+	if parse == nil {
+		c.R.Fail(r, "ValidateIdentityPattern: accepts only a parsed expression", c.Pos(fn.Pos()), "regexp/syntax is not in the import graph: the identity pin is judged by scanning the bytes of the pattern, which a top-level alternation (`^tight|.*$`), a quantifier behind the repository segment (`repo/?.*`) or a class escape passes — an artifact signed by an unrelated identity is then accepted as verified")
+		return
+	}
+	g := okGates(kit.CallsToOK(fn, Set(parse), 2), "syntax.Parse ok")
+	nilRets, _ := kit.NilReturns(fn)
+	var targets []ssa.Instruction
+	for _, ret := range nilRets {
+		targets = append(targets, ret)
+	}
+	c.R.Check(len(targets) >= 1, r, "ValidateIdentityPattern: accepting return", c.Pos(fn.Pos()), "found", "no `return nil` in ValidateIdentityPattern", true)
+	c.Dominated(r, "ValidateIdentityPattern: accepts only a parsed expression", targets, g, "the regexp/syntax.Parse success edge")
 }
